@@ -8,6 +8,7 @@ use crate::with_shape;
 use mina::Timeline;
 
 const STREAM: u64 = 1;
+const STREAM_OFFGRID: u64 = 2;
 
 pub fn run(run: &mut Run) {
     run.rule = "random timelines in the dyadic exact regime (keyframe positions k/64, power-of-two cycles, dyadic delays, \
@@ -34,6 +35,77 @@ pub fn run(run: &mut Run) {
             });
         }
     });
+    // second stream: timing off the dyadic grid, judged only where no rounding can matter — well after the end (the
+    // terminal value, constant) and well inside the delay (the 0 % value)
+    let n2: u64 = if run.thorough() { 200_000 } else { 8_000 };
+    run.parallel(|w, nw, acc| {
+        for i in my_cases(rc, STREAM_OFFGRID, n2, w, nw) {
+            guarded(acc, "c02", STREAM_OFFGRID, i, |acc| {
+                let mut r = Rng::derive(seed, STREAM_OFFGRID, i);
+                let shape = r.usize(crate::shapes::N_SHAPES);
+                with_shape!(shape, offgrid_case(&mut r, acc, i));
+            });
+        }
+    });
+}
+
+/// `Times(n)` / `None` timelines with cycles such as 0.1 s or 0.7 s (whose f32 total is neither exact nor a multiple of
+/// the cycle): at `total + 0.05 s`, `+1 s`, `+60 s`, `1e9 s` and `f32::MAX` the terminal value (100 %, the original 0 %
+/// when reversing) must be shown and must not change; half-way into a positive delay the 0 % value must be shown.
+fn offgrid_case<S: Shape>(r: &mut Rng, acc: &mut Acc, index: u64) {
+    let kinds = &S::KINDS[..S::N_ANIM];
+    let mut spec = gen_tl(r, kinds, &GenOpts { random_pos: true, min_kf: 1, shuffle: true, ..GenOpts::default() });
+    spec.cycle = *r.pick(&[0.1f32, 0.3, 0.7, 0.15, 0.6, 1.1, 0.05]);
+    spec.delay = *r.pick(&[0.0f32, 0.0, 0.5, 0.1, 0.3]);
+    spec.repeat = *r.pick(&[Rep::None, Rep::Times(1), Rep::Times(2), Rep::Times(4), Rep::Times(5), Rep::Times(9)]);
+    let tl = S::build_tl(&spec);
+    let total = spec.total();
+    let case = |t: f32, f: usize, what: &str| case_json(STREAM_OFFGRID, index, vec![("shape", J::s(S::NAME)), ("timeline", spec.json()), ("t", J::F(t as f64)), ("field", J::s(S::FIELDS[f])), ("clause", J::s(what))]);
+    let mut terminal: Vec<Option<u64>> = vec![None; S::N_ANIM];
+    let mut times: Vec<(f32, bool)> = [0.05f64, 1.0, 60.0].iter().map(|d| ((total + d) as f32, true)).collect();
+    times.extend_from_slice(&[(1.0e9, true), (f32::MAX, true)]);
+    if spec.delay > 0.0 {
+        times.push((spec.delay * 0.5, false));
+    }
+    for (t, after) in times {
+        let mut target = crate::checks::c08::fill_sentinels::<S>(r);
+        tl.update(&mut target, t);
+        for f in 0..S::N_ANIM {
+            let fr = frames(&spec, f);
+            if fr.is_empty() {
+                continue;
+            }
+            let rest_first = !after || spec.reverse;
+            let rest_pos = if rest_first { fr[0].pos } else { fr[fr.len() - 1].pos };
+            let wants: Vec<f64> = fr.iter().filter(|x| x.pos == rest_pos).map(|x| x.val).collect();
+            if wants.len() > 1 {
+                acc.count("ambiguous_or_not_at_keyframe", 1);
+                continue;
+            }
+            acc.eval();
+            let (got, clause) = (target.get(f), if !after { "0%-until-delay" } else if spec.reverse { "terminal-original-0%" } else { "terminal-100%" });
+            if !agrees_exact(S::KINDS[f], got, wants[0]) {
+                acc.violation(
+                    format!("c02:offgrid:{clause}"),
+                    format!("field {} at t={t} (cycle {}, delay {}, {:?}, reverse {}; total {total}): observed {got}, expected {} ({clause})", S::FIELDS[f], spec.cycle, spec.delay, spec.repeat, spec.reverse, wants[0]),
+                    case(t, f, clause),
+                );
+                return;
+            }
+            if after {
+                let b = target.bits(f);
+                match terminal[f] {
+                    None => terminal[f] = Some(b),
+                    Some(pb) if pb != b && !(got == 0.0 && target.get(f) == 0.0) => {
+                        acc.violation("c02:offgrid:terminal-changes", format!("field {} changes after the end: bits {pb:#x} then {b:#x} at t={t}", S::FIELDS[f]), case(t, f, "terminal-constant"));
+                        return;
+                    }
+                    _ => {}
+                }
+            }
+        }
+    }
+    acc.sig(format!("offgrid|{}|rev={}|delay={}|c={}", spec.repeat.class(), spec.reverse, spec.delay > 0.0, spec.cycle));
 }
 
 fn case<S: Shape>(r: &mut Rng, acc: &mut Acc, index: u64, verbose: bool) {
